@@ -49,6 +49,9 @@ ARCH = [
     ("int_none", int, None, True, True, 4, None),
     ("list_def", typing.List[int], ("factory", []), False, False, [5], lambda v: list(v)),
     ("float_nan", float, float("nan"), False, True, 1.5, None),
+    # nullable through forms other than Optional[X] (finding F41: omit_none ignored them)
+    ("union3_none", typing.Union[int, str, None], dataclasses.MISSING, True, True, "s", None),
+    ("lit_none", typing.Literal[1, None], 1, True, True, None, None),
 ]
 OPTS = ("omit_none", "omit_default", "serialize_by_alias")
 
